@@ -202,7 +202,9 @@ def run_case(spec, lines, out):
                 if last is None:
                     continue
                 s = last
-                stv, inv, outv = s.stock.values.copy(), s.inflow.values.copy(), s.outflow.values.copy()
+                big = float(op.get("big", 1))
+                stv, inv, outv = (np.asarray(s.stock.values, dtype=float) * big, np.asarray(s.inflow.values, dtype=float) * big,
+                                  np.asarray(s.outflow.values, dtype=float) * big)
                 if op.get("perturb"):
                     which, pos, delta = op["perturb"]
                     tgt = {"stock": stv, "inflow": inv, "outflow": outv}[which]
